@@ -3,7 +3,6 @@ package lib
 import (
 	"bytes"
 	"fmt"
-	"net"
 	"os"
 	"os/exec"
 	"path/filepath"
@@ -76,14 +75,27 @@ type Proxy struct {
 	MaxRSS  int64
 }
 
+// FreePort returns a port that no socket of any local address uses: the proxy
+// binds the wildcard address without SO_REUSEADDR semantics for connections in
+// TIME_WAIT, so a port that is merely free on 127.0.0.1 (net.Listen sets
+// SO_REUSEADDR and would accept it) can still be refused to it.
 func FreePort() int {
-	l, err := net.Listen("tcp4", "127.0.0.1:0")
+	fd, err := syscall.Socket(syscall.AF_INET, syscall.SOCK_STREAM, 0)
 	if err != nil {
 		return 0
 	}
-	p := l.Addr().(*net.TCPAddr).Port
-	l.Close()
-	return p
+	defer syscall.Close(fd)
+	if err := syscall.Bind(fd, &syscall.SockaddrInet4{Port: 0}); err != nil {
+		return 0
+	}
+	sa, err := syscall.Getsockname(fd)
+	if err != nil {
+		return 0
+	}
+	if in4, ok := sa.(*syscall.SockaddrInet4); ok {
+		return in4.Port
+	}
+	return 0
 }
 
 // WhiteListYAML renders the authip.yaml content.
@@ -218,6 +230,31 @@ func (p *Proxy) OutputTail(n int) string {
 	return string(b)
 }
 
+// DeathReport describes how a dead proxy ended: exit status, output tail and the
+// tail of its newest log file.
+func (p *Proxy) DeathReport() string {
+	p.mu.Lock()
+	ee := p.exitErr
+	p.mu.Unlock()
+	rep := fmt.Sprintf("exit=%v output=%q", ee, p.OutputTail(1500))
+	if files, _ := filepath.Glob(filepath.Join(p.Dir, "log", "*")); len(files) > 0 {
+		var newest string
+		var nt time.Time
+		for _, f := range files {
+			if st, err := os.Stat(f); err == nil && !st.IsDir() && st.ModTime().After(nt) {
+				newest, nt = f, st.ModTime()
+			}
+		}
+		if b, err := os.ReadFile(newest); err == nil {
+			if len(b) > 1500 {
+				b = b[len(b)-1500:]
+			}
+			rep += fmt.Sprintf(" log(%s)=%q", filepath.Base(newest), string(b))
+		}
+	}
+	return rep
+}
+
 // PanicLine extracts the first "panic:" or "fatal error:" line of the output.
 func (p *Proxy) PanicLine() string {
 	b, _ := os.ReadFile(p.outPath)
@@ -253,7 +290,7 @@ func (p *Proxy) WaitReady(watchdog time.Duration) error {
 	deadline := time.Now().Add(watchdog)
 	for time.Now().Before(deadline) {
 		if !p.Alive() {
-			return fmt.Errorf("proxy exited during start: %s", p.OutputTail(2000))
+			return fmt.Errorf("proxy exited during start: %s", p.DeathReport())
 		}
 		c, err := DialClient(p.Addr, "", 0)
 		if err != nil {
